@@ -283,7 +283,8 @@ func (u *Unit) strConst(s string) Term {
 }
 
 func (u *Unit) typeTag(t types.Type) Term {
-	key := types.TypeString(t, nil)
+	// (interface{} and its alias any are one type)
+	key := strings.ReplaceAll(types.TypeString(t, nil), "interface{}", "any")
 	if n, ok := u.tags[key]; ok {
 		return intConst(int64(n))
 	}
